@@ -794,6 +794,16 @@ impl PackageBuilder {
                 .push(Dependency::rpmlib("PayloadIsZstd", "5.4.18-1"));
         }
 
+        if self.compression.compression_type() == CompressionType::Xz {
+            self.requires
+                .push(Dependency::rpmlib("PayloadIsXz", "5.2-1"));
+        }
+
+        if self.compression.compression_type() == CompressionType::Bzip2 {
+            self.requires
+                .push(Dependency::rpmlib("PayloadIsBzip2", "3.0.5-1"));
+        }
+
         if uses_file_capabilities {
             self.requires
                 .push(Dependency::rpmlib("FileCaps", "4.6.1-1".to_owned()));
